@@ -423,13 +423,13 @@ def _contexts():
         ("sor_last", lambda x: "sor< string< 'a', 'c' >, %s >" % x),
         ("seq_mid", lambda x: "seq< one< 'a' >, %s, one< 'c' > >" % x),
         ("star_body", lambda x: "star< seq< %s, one< 'c' > > >" % x),
-        ("plus_body", lambda x: "plus< sor< %s, one< 'c' > > >" % x),
+        ("plus_body", lambda x: "plus< seq< one< 'c' >, %s > >" % x),
         ("under_at", lambda x: "seq< at< %s >, opt< %s > >" % (x, x)),
         ("under_not_at", lambda x: "seq< not_at< %s >, any >" % x),
         ("opt_then", lambda x: "seq< opt< %s >, star< any > >" % x),
         ("under_must", lambda x: "must< %s, eof >" % x),
         ("rep", lambda x: "rep_min_max< 1, 2, %s >" % x),
-        ("until", lambda x: "until< one< 'c' >, %s >" % x),
+        ("until", lambda x: "until< one< 'c' >, seq< %s, any > >" % x),
         ("ite_cond", lambda x: "if_then_else< %s, one< 'b' >, one< 'c' > >" % x),
         ("ite_then", lambda x: "if_then_else< one< 'a' >, %s, one< 'c' > >" % x),
         ("if_must_cond", lambda x: "if_must< %s, one< 'c' > >" % x),
@@ -498,6 +498,9 @@ def _c05_family(tier, seed):
         g = _mk(body, ["c05", "c05:pos", "raise"], alphabet=al)
         out.append(g)
     rnd.shuffle(out)
+    if _finding_listed():
+        # the recorded finding is replayed on every run (prints KNOWN-FINDING); see KNOWN_SIGS
+        out.insert(0, _mk("seq< opt< one< 'b' > >, rematch< one< 'a' >, must< one< 'b' > > > >", ["c05", "c05:pos", "c05:known", "raise"]))
     if tier != "thorough":
         # keep the quick tier small but let every seed see a different slice of (a)-(c); (d) always present
         keep = [g for g in out if "c05:pos" in g.tags] + [g for g in out if "c05:pos" not in g.tags][:84]
@@ -547,7 +550,18 @@ POS_CFGS = [("act0", "ctl2", 1, 1, "lf"), ("act0", "ctl2", 1, 0, "crlf", "lazy")
             ("act0", "ctl3", 1, 1, "cr"), ("act5", "ctl2", 1, 0, "lf", "lazy+init"), ("act0", "ctl2", 1, 1, "cr_crlf")]
 
 
+def _finding_listed():
+    try:
+        import vlib
+        sig = KNOWN_SIGS["KNOWN:lazy-rematch-position"]
+        return any(k.get("property") == "C05" and k.get("status") == "open" and k.get("signature") == sig for k in vlib.load_known_findings())
+    except Exception:      # noqa
+        return False
+
+
 def choose_cfgs(g, k, tier):
+    if "c05:known" in g.tags:
+        return [("act0", "ctl2", 1, 1, "lf_crlf", "lazy+init")]
     if "atoms" in g.tags:
         return er.EOL_CFGS
     if "c05:pos" in g.tags:
